@@ -659,7 +659,8 @@ Proof.
 Qed.
 
 (** heimdall's three error handler mechanisms (as modelled in C12 and tied to the
-    code by both correspondence streams) record before they report success *)
+    code by the three correspondence streams of this check and by C12's) record
+    before they report success *)
 Theorem real_mechanisms_record m : records (h_sem (EhReal m)).
 Proof. apply (handler_records_sem {| e_if := None; e_kind := EhReal m |}). exact I. Qed.
 
@@ -950,6 +951,30 @@ Proof.
   - intro P. apply completed_b_spec in P. discriminate.
   - intros (_ & _ & _ & G). inversion G as [|? ? [_ H] _]. simpl in H. discriminate.
   - vm_compute. reflexivity.
+Qed.
+
+(** the part of [redirects_ok] that is still a live hypothesis: an error VALUE
+    carrying a RedirectError with code 200, returned by a mechanism (here an
+    authenticator) and passed through by an empty error pipeline, is answered with
+    that status by both translators: the accepted status of the decision service,
+    a DeniedHttpResponse with status 200 under Envoy *)
+Definition redirect200_value_rule : rule :=
+  {| sc := [{| a_out := Fail (Redirect 200 "http://elsewhere"%string); a_fallback := false |}]; sh := []; fi := [];
+     eh := []; backend := true; slashes_off := false |}.
+
+Theorem success_redirect_value_is_positive :
+  ~ pipeline_completed redirect200_value_rule /\ ~ redirects_ok redirect200_value_rule /\
+  eh redirect200_value_rule = [] /\ handlers_record redirect200_value_rule /\
+  serve Decision plain_config (Matched redirect200_value_rule) plain_request = AHttp 200 0 /\
+  positive Decision plain_config (serve Decision plain_config (Matched redirect200_value_rule) plain_request) /\
+  serve Envoy plain_config (Matched redirect200_value_rule) plain_request = AEnvoyDenied GFailedPrecondition 200.
+Proof.
+  split; [intro P; apply completed_b_spec in P; discriminate|].
+  split.
+  { intros (G & _). inversion G as [|? ? H _]. simpl in H.
+    assert (S : success_like 200 = false) by (apply H; simpl; auto). discriminate. }
+  split; [reflexivity|]. split; [constructor|].
+  split; [reflexivity|]. split; [reflexivity | reflexivity].
 Qed.
 
 (** ** what the loader guarantees of redirect handlers (fix: 6c5864d, C20-F1b):
